@@ -8,8 +8,8 @@ HARNESS_FILES = ['pkg/frame/zz_verif_common.go', 'pkg/frame/zz_verif_c07.go', 'p
                  'pkg/frame/zz_verif_export.go', 'pkg/frame/zz_verif_msgs.go', 'pkg/streamwriter/zz_verif_c09.go']
 CLOCK_PKGS = ['pkg/streamwriter']
 ROOTS = ['verifHarness_C07']
-ALLOW = 'bufio,io,encoding/binary,errors,bytes'
-INITS = 'io,bufio,errors,github.com/bluenviron/gomavlib/v3/pkg/message'
+ALLOW = 'bufio,io,encoding/binary,errors,bytes,time'
+INITS = 'io,bufio,errors,time,github.com/bluenviron/gomavlib/v3/pkg/message'
 OPTIONS = {}
 ANCHOR_FILES = ['/repo/pkg/frame/reader.go', '/repo/pkg/streamwriter/writer.go', '/repo/pkg/frame/writer.go']
 
@@ -20,11 +20,12 @@ def tasks(tier):
     ts += [Task('verifHarness_C07_history', [k]) for k in ((2,) if tier == 'quick' else (2, 3, 4))]
     ts.append(Task('verifHarness_C07_T', [], {'x25_uf': True, 'bv_as_int_fallback': True, 'inc_timeout_ms': 300, 'timeout_ms': 5000},
                    pkg='pkg/streamwriter'))
+    ts.append(Task('verifHarness_C07_reference', [], pkg='pkg/streamwriter'))
     return ts
 
 
 def required_reach(tier):
-    return ['C07/W', 'C07/H', 'C07/T', 'C07/F']
+    return ['C07/W', 'C07/H', 'C07/T', 'C07/F', 'C07/R']
 
 
 def bounds(tier):
@@ -33,6 +34,7 @@ def bounds(tier):
             'forged_frame': 'arbitrary pre-state, a frame with any six signature bytes other than the right ones and any timestamp, then a correctly signed frame: state unchanged by the forged frame',
             'history_crosscheck': 'fresh reader, %s frames with arbitrary timestamps' % ('2' if tier == 'quick' else '2..4'),
             'payload_lengths': [0, 1, 3] if tier == 'quick' else [0, 1, 2, 3, 8, 64, 255],
+            'reference_instant': 'the two signatureReferenceDate globals, as set by the real package initialisers, equal time.Date(2015, 1, 1, 0, 0, 0, 0, time.UTC) (location included)',
             'writer_timestamps': 'two consecutive streamwriter writes, clock readings d1 <= d2 arbitrary in [0, 2^48 * 10 us) (years 2015..2104): ts_i = d_i / 10000 and ts2 >= ts1 (udiv monotonicity decided by cvc5 --solve-bv-as-int=sum)'}
 
 
